@@ -164,12 +164,35 @@ impl<K: SymK, const N: usize> Table<K, N> {
     }
 }
 
-fn avail_set<const N: usize>(avail: &[bool; N]) -> BitSet {
+/// slot of row i in the perfect-hash table: the identity in the model M1 (asserted here, in the
+/// solver run), a permutation in the real boomphf that native replays (compiled as tests) run
+/// against — there it is looked up. Keeping it a constant in the solver run matters: symbolic
+/// slot numbers make every BitSet operation a symbolic-offset write (1.3 GB -> 12 GB).
+fn slots<K: SymK, const N: usize>(index: &BoomHashMap2<K, Exts, u8>, keys: &[K; N]) -> [usize; N] {
+    let mut id = [0usize; N];
+    let mut i = 0;
+    while i < N {
+        #[cfg(test)]
+        {
+            id[i] = index.get_key_id(&keys[i]).expect("row key is in the table") as usize;
+        }
+        #[cfg(not(test))]
+        {
+            assert!(index.get_key_id(&keys[i]) == Some(i));
+            id[i] = i;
+        }
+        i += 1;
+    }
+    id
+}
+
+/// availability set in slot space
+fn avail_set<const N: usize>(avail: &[bool; N], id: &[usize; N]) -> BitSet {
     let mut s = BitSet::with_capacity(N);
     let mut i = 0;
     while i < N {
         if avail[i] {
-            s.insert(i);
+            s.insert(id[i]);
         }
         i += 1;
     }
@@ -191,7 +214,8 @@ pub fn walk<K: SymK, const N: usize, const JOIN_EQ: bool>() {
     let index = t.index();
     let mut path: Vec<(K, Dir)> = Vec::new();
     path.reserve_exact(8);
-    let set = avail_set(&avail0);
+    let id = slots(&index, &t.keys);
+    let set = avail_set(&avail0, &id);
     let (e, after) = if JOIN_EQ {
         let spec: ScmapCompress<u8> = ScmapCompress::new();
         extend_kmer_walk(t.stranded, &spec, &index, set, t.keys[start], dir, &mut path)
@@ -206,7 +230,7 @@ pub fn walk<K: SymK, const N: usize, const JOIN_EQ: bool>() {
             assert!(path[i].0.raw() == t.keys[rpath[i].0].raw());
             assert!(same_dir(path[i].1, rpath[i].1));
         }
-        assert!(after.contains(i) == avail[i]);
+        assert!(after.contains(id[i]) == avail[i]);
         i += 1;
     }
     assert!(e.val == nib(t.exts[end], end_dir));
@@ -238,15 +262,16 @@ pub fn build_node<K: SymK, const N: usize, const JOIN_EQ: bool>() {
     let mut path: Vec<(K, Dir)> = Vec::new();
     path.reserve_exact(8);
     let mut seq: VecDeque<u8> = VecDeque::with_capacity(16);
-    let set = avail_set(&avail0);
+    let id = slots(&index, &t.keys);
+    let set = avail_set(&avail0, &id);
     let (e, d, after) = if JOIN_EQ {
         let spec: ScmapCompress<u8> = ScmapCompress::new();
-        build_node_from(t.stranded, &spec, &index, set, seed, &mut path, &mut seq)
+        build_node_from(t.stranded, &spec, &index, set, id[seed], &mut path, &mut seq)
     } else {
         // a reduction whose FOLD is order-independent (f(f(a,x),y) == f(f(a,y),x)) but which is not
         // associative as a binary operation: it tells "folded k-mer by k-mer" from "summaries merged"
         let spec = SimpleCompress::new(|a: u8, b: &u8| a.wrapping_add(b.wrapping_mul(2)).wrapping_add(1));
-        build_node_from(t.stranded, &spec, &index, set, seed, &mut path, &mut seq)
+        build_node_from(t.stranded, &spec, &index, set, id[seed], &mut path, &mut seq)
     };
 
     // (1) length: one base per k-mer beyond the first
@@ -274,7 +299,7 @@ pub fn build_node<K: SymK, const N: usize, const JOIN_EQ: bool>() {
     let mut i = 0;
     let mut fold = t.data[seed];
     while i < N {
-        assert!(after.contains(i) == avail[i]);
+        assert!(after.contains(id[i]) == avail[i]);
         if avail0[i] && !avail[i] && i != seed {
             fold = fold.wrapping_add(t.data[i].wrapping_mul(2)).wrapping_add(1);
         }
